@@ -1,5 +1,8 @@
 SPECIFICATION HSpec
 CONSTANTS
+  RICH = FALSE
+  MINNODES = 0
+  MAXSTACK = 99
   BUDGET = 0
   FUEL = 3000
   MAXINT = 100000
